@@ -564,6 +564,17 @@ def c12(tier):
     inputs.append(("locationless-import-with-candidate-siblings",
                    {"a.xsd": A('<xs:import namespace="http://zv.test/b"/>' + good), "b1.xsd": cand("One"), "b2.xsd": cand("Two"), "b3.xsd": cand("Three"),
                     "b4.xsd": cand("Four")}, "a.xsd"))
+    # file sets that have a namespace in common but give it different prefixes (alone it is `typ`, after another `.../types`
+    # namespace it is `typ1`): what one input was given must not carry over to the next input of the same process
+    one = A('<xs:import namespace="http://zv.test/h/two/types" schemaLocation="two.xsd"/>' + good, tns="http://zv.test/h/one/types")
+    two = A(good.replace('"C"', '"D"'), tns="http://zv.test/h/two/types")
+    two_first = A('<xs:import namespace="http://zv.test/h/one/types" schemaLocation="one.xsd"/>' + good.replace('"C"', '"D"'), tns="http://zv.test/h/two/types")
+    one_alone = A(good, tns="http://zv.test/h/one/types")
+    inputs.append(("shared-namespace:one-imports-two", {"one.xsd": one, "two.xsd": two}, "one.xsd"))
+    inputs.append(("shared-namespace:two-alone", {"two.xsd": two}, "two.xsd"))
+    inputs.append(("shared-namespace:two-imports-one", {"two.xsd": two_first, "one.xsd": one_alone}, "two.xsd"))
+    inputs.append(("shared-namespace:one-alone", {"one.xsd": one_alone}, "one.xsd"))
+    refs = {}
     rejected_checked = 0
     n_proc = 8 if tier == "quick" else 32
     scratchdir = common.scratch("c12")
@@ -601,6 +612,7 @@ def c12(tier):
                                      {"first": list(ref), "later": list(oc(call)), "call_index": ci}))
             return label, "rejected", recs, nexec, 0
         ref_sha, ref_text = c0["sha"], c0["text"]
+        refs[label] = (files, start, ref_sha, ref_text)
         shas = {ref_sha}
         execs = 1
 
@@ -664,6 +676,47 @@ def c12(tier):
             v.violation(f"C12|differs|across={across}|where={where}", {"input": label, "detail": detail})
         if len(samples) < 6:
             samples.append({"input": label, "executions": execs, "distinct_outputs_seen": nshas})
+    # histories over *different* inputs in one process: every output must be the one a fresh process gives for that input,
+    # whatever the process generated before
+    hist_labels = sorted(refs)
+    shared = [lbl for lbl in hist_labels if lbl.startswith("shared-namespace:")]
+    histories = [list(pm) for pm in itertools.permutations(shared, 2)] + [list(pm) for pm in itertools.permutations(shared, 3)][:: 1 if tier != "quick" else 2]
+    hr = rng("C12", "histories")
+    for _ in range(40 if tier == "quick" else 400):
+        histories.append([hr.choice(hist_labels) for _ in range(hr.randrange(3, 7))])
+    if hist_labels:
+        histories.append(hist_labels + hist_labels[::-1])
+
+    def one_history(hist):
+        w = common.ZWorker(zdrive)
+        out = []
+        pid = None
+        try:
+            for k, lbl in enumerate(hist):
+                files, start, ref_sha, ref_text = refs[lbl]
+                res = w.run({"id": k, "op": "gen", "files": files, "start": start, "cpu_budget_s": 60, "want_text": True}, wall_timeout=120)
+                if "calls" not in res or (pid is not None and w.p is not None and w.p.pid != pid):
+                    return out, "process ended inside the history"
+                pid = w.p.pid if w.p is not None else pid
+                call = res["calls"][0]
+                if call.get("outcome") != "ok":
+                    out.append((lbl, k, "outcome-" + str(call.get("outcome")), {"history": hist[: k + 1]}))
+                elif call["sha"] != ref_sha:
+                    out.append((lbl, k, _diff_class(ref_text, call.get("text", "")),
+                                {"history": hist[: k + 1], "first_diff": _first_diff(ref_text, call.get("text", ""))}))
+            return out, None
+        finally:
+            w.close()
+
+    history_calls, histories_cut_short = 0, 0
+    for hist, (recs, cut) in zip(histories, pool.map(one_history, histories)):
+        if cut:
+            histories_cut_short += 1
+            continue
+        history_calls += len(hist)
+        for lbl, k, where, detail in recs:
+            v.violation(f"C12|differs|across=other-inputs-earlier-in-the-process|where={where}", {"input": lbl, "detail": detail})
+    executions += history_calls
     import shutil
     shutil.rmtree(scratchdir, ignore_errors=True)
     multi_op = sum(1 for lbl in distinct_outputs if "synth" in lbl or "generated" in lbl or lbl.endswith((".wsdl", "_wsdl.xml")))
@@ -673,12 +726,16 @@ def c12(tier):
         "rule": "inputs = every schema/WSDL file under /repo/resources and zeep-lib/test-data that the generator accepts (with their "
                 "sibling .xsd files) + seeded synthetic WSDLs with 2-8 operations, multi-part messages, headers, with/without "
                 "parts=; per input: N fresh processes (fresh hash seeds), 4 threads x 3 repeated read_xml calls on one FilesToRead, "
-                "a call history of length 3, every/8 registration orders of the file set, and the directory-enumerating helper; inputs that are "
+                "a call history of length 3, every/8 registration orders of the file set, and the directory-enumerating helper; then histories of "
+                "3-6 *different* accepted inputs in one process (random ones, and all orders of four small sets that share a namespace but "
+                "give it different prefixes), each output compared with the fresh-process output of that input; inputs that are "
                 "refused (repository files zeep cannot read, and five hand-made failing sets) get call histories and threads as well and "
                 "must be refused the same way each time; "
                 "oracle = SHA-256 equality with the first output. evaluations = generator executions compared; "
                 "distinct_nontrivial = accepted inputs that are WSDLs (>= 2 operations or parts, where a hash-order dependence "
                 "can show at all)",
+        "histories_over_different_inputs_in_one_process": len(histories) - histories_cut_short, "calls_in_those_histories": history_calls,
+        "histories_cut_short_by_a_dying_process": histories_cut_short,
         "inputs_total": len(inputs), "inputs_accepted": accepted, "refused_inputs_checked_for_stable_outcome": rejected_checked, "fresh_processes_per_input": n_proc,
         "distinct_outputs_seen_per_input": distinct_outputs,
         "inputs_with_more_than_one_output": sorted(k for k, n in distinct_outputs.items() if n > 1),
